@@ -560,7 +560,8 @@ def parse_observed(p, src):
         try:
             return p.parse(src)
         except ElementPathError as e:
-            holder['msg'] = str(e.message)
+            import re as _re
+            holder['msg'] = _re.sub(r' at 0x[0-9a-fA-F]+', '', str(e.message))   # repr() of objects: addresses
             raise
 
     out, _site, tok = in_process_guard(call)
@@ -724,7 +725,9 @@ def correspond_histories(run: Run, n: int) -> None:
 # --------------------------------------------------------------------------------------
 # (b) lexer: real Parser.advance vs Lean model on the real tokenizer's matches
 # --------------------------------------------------------------------------------------
-def lexer_case(v: str, src: str):
+def lexer_case(v: str, src: str, own: bool = False):
+    """own=False: the base `Parser.advance`; own=True: the parser class's own `advance` (for 2.0+ the
+    comment-skipping `XPath2Parser.advance`)"""
     import elementpath.tdop as tdop
     from elementpath import ElementPathError
     p = new_parser(v)
@@ -742,14 +745,14 @@ def lexer_case(v: str, src: str):
             parts.append('u0:' + enc(unk))
         else:
             parts.append('w0:' + enc(m.group()))
-    line = f'L v={v} m=' + ';'.join(parts)
+    line = f'L v={v} a={2 if own else 1} m=' + ';'.join(parts)
     p.source = src
     p.tokens = iter(matches)
     syms, err = [], '-'
     registered = True
     for _ in range(len(matches) + 2):
         try:
-            out, _site, _v = in_process_guard(lambda: tdop.Parser.advance(p))
+            out, _site, _v = in_process_guard((lambda: p.advance()) if own else (lambda: tdop.Parser.advance(p)))
         finally:
             pass
         if out != 'ok':
@@ -770,11 +773,13 @@ def correspond_lexer(run: Run, sources: list) -> None:
     for v, src in sources:
         if any(0xD800 <= ord(c) < 0xE000 for c in src) or ',' in src and False:
             continue   # lone surrogates are not Lean `Char`s: not representable on the model side
-        line, impl, reg, nm = lexer_case(v, src)
-        lines.append(line)
-        impls.append(impl)
-        regs.append(reg)
-        cases.append({'kind': 'lexer', 'v': v, 's': src[:300] + ('…' if len(src) > 300 else ''), 'matches': nm})
+        for own in ((False, True) if v != '1.0' else (False,)):
+            line, impl, reg, nm = lexer_case(v, src, own)
+            lines.append(line)
+            impls.append(impl)
+            regs.append(reg)
+            cases.append({'kind': 'lexer', 'v': v, 'advance': 'own' if own else 'base',
+                          's': src[:300] + ('…' if len(src) > 300 else ''), 'matches': nm})
     answers = run.driver('C03', lines)
     st = run.stats
     for case, impl, reg, ans in zip(cases, impls, regs, answers):
@@ -784,12 +789,12 @@ def correspond_lexer(run: Run, sources: list) -> None:
         body, pat = ans.rsplit(' pat=', 1)
         model, spec = body[len('model='):].split(' spec=')
         st.case(case, nontrivial=case['matches'] > 1)
-        st.count('lexer:sources')
+        st.count('lexer:sources:' + case['advance'])
         st.count('lexer:matches', case['matches'])
         err = impl.split(';err=')[1].split(';')[0]
         st.count('lexer:outcome:' + ('end-of-source' if err == '-' else err))
         for sym in impl.split(';err=')[0].split(','):
-            if sym.startswith('('):
+            if sym in ('(string)', '(float)', '(decimal)', '(integer)', '(name)', '(unknown)', '(invalid)', '(end)'):
                 st.count('lexer:special:' + sym)
         impl_class = 'ok' if (reg and (err == '-' or (err.startswith('ERR:') and not err.startswith('ERR:OTHER')
                                                       and not err.startswith('ERR:NOCODE')))) else 'bad'
@@ -893,7 +898,7 @@ def correspond_taxonomy(run: Run, n: int) -> None:
 # --------------------------------------------------------------------------------------
 # (c) exploration stream: malformed / ill-typed inputs, oracle = coded ElementPathError or value
 # --------------------------------------------------------------------------------------
-def gen_explore_cases(rng, n: int) -> list[dict]:
+def gen_explore_cases(rng, n: int, matrix: str = 'classes') -> list[dict]:
     ft = {v: G.function_table(v, parser_class(v)) for v in VERSIONS}
     tk = {v: new_parser(v).tokenizer for v in VERSIONS}
     syms = {v: [k for k in parser_class(v).symbol_table if not k.startswith('(') or k == '(:'] for v in VERSIONS}
@@ -901,6 +906,12 @@ def gen_explore_cases(rng, n: int) -> list[dict]:
     for s in G.KNOWN_NASTIES:
         for v in VERSIONS:
             cases.append({'v': v, 's': s, 'c': 'doc', 'g': 'corpus'})
+    if matrix != 'none':
+        # quick: operators/functions are shared code between the versions -> the matrices are run with the
+        # 1.0 parser (compatibility mode) and the 3.1 parser (everything); thorough: all four, full pool
+        for v in (VERSIONS if matrix == 'pool' else ['1.0', '3.1']):
+            for s, tag in G.matrix_cases(v, ft[v], full_pool=(matrix == 'pool')):
+                cases.append({'v': v, 's': s, 'c': rng.choice(['doc', 'doc', 'elem', 'atom', 'noroot']), 'g': tag})
     for _ in range(n):
         v = rng.choice(VERSIONS)
         g = G.Gen(rng, v, ft[v])
@@ -992,7 +1003,7 @@ def judge_explored(run: Run, results: list[dict], count: bool = True) -> list[Di
 
 
 def explore(run: Run, n: int) -> list[dict]:
-    cases = gen_explore_cases(run.rng, n)
+    cases = gen_explore_cases(run.rng, n, matrix='classes' if run.quick else 'pool')
     t0 = time.time()
     results = explore_many(cases, nworkers=int(os.environ.get('C03_WORKERS', '4')))
     for c, r in zip(cases, results):
@@ -1043,7 +1054,7 @@ def search(run: Run):
     # (t) every error code
     correspond_taxonomy(sub, 500)
     # (c) a second, larger exploration stream
-    for d in judge_explored(sub, explore_many(gen_explore_cases(sub.rng, run.scale(15000, 60000)),
+    for d in judge_explored(sub, explore_many(gen_explore_cases(sub.rng, run.scale(15000, 60000), matrix='none'),
                                               nworkers=int(os.environ.get('C03_WORKERS', '4'))), count=False):
         sub.disagree(d)
     run.notes.append(f'search: {len(lines)} reuse histories, {len(srcs)} lexer sources, all error codes, '
@@ -1125,7 +1136,7 @@ def replay(run: Run) -> int:
             print(('   ' if a == b else '!! ') + a + ('' if a == b else '   fresh: ' + b))
         return 0 if impl == spec else 1
     if case.get('kind') == 'lexer':
-        line, impl, reg, _ = lexer_case(case['v'], case['s'])
+        line, impl, reg, _ = lexer_case(case['v'], case['s'], case.get('advance') == 'own')
         print(impl, run.driver('C03', [line])[0])
         return 1
     print('unsupported replay kind')
@@ -1161,6 +1172,10 @@ def body(run: Run) -> int:
         cases = explore(run, run.scale(18000, 150000))
         lex_sources = [(c['v'], c['s']) for c in cases[::run.scale(6, 12)]]
         lex_sources += [(v, ' '.join(k for k in parser_class(v).symbol_table if not k.startswith('('))) for v in VERSIONS]
+        lex_sources += [(VERSIONS[i % 4], s) for i, s in enumerate(G.KNOWN_NASTIES) if len(s) <= 300]
+        lex_sources += [(v, s) for v in VERSIONS for s in ('.1.', '.1.5e3', '1.2.3', '1' * 4301, '1' * 4301 + '.5', "'it''s'", '(: c :) 1',
+                                                             '1 (: a (: b :) c :) 2', '(: x', '(: (: :)', ':)', '1 (::) 2',
+                                                             'a:(: c :)b', '(: :) :x', '(:(:(:', '1 (: :) (: :) 2', '(: "x :) 1')]
         correspond_lexer(run, lex_sources)
         correspond_taxonomy(run, run.scale(600, 6000))
     except DriverError as e:
